@@ -2,10 +2,12 @@ package c11
 
 import (
 	"encoding/json"
+	"fmt"
 	"strconv"
 
 	"github.com/EliCDavis/polyform/generator/parameter"
 	"github.com/EliCDavis/polyform/nodes"
+	"github.com/EliCDavis/vector/vector3"
 )
 
 // The real graph: polyform nodes.Struct instances over the processors of
@@ -28,6 +30,71 @@ type liveParam struct {
 	outI func(alt bool) nodes.NodeOutput[int]
 	setS func(string)
 	setI func(int)
+	outV func(alt bool) nodes.NodeOutput[[]vector3.Float64]
+	outR func(alt bool) nodes.NodeOutput[Rec]
+	// parameter.Value sources only: apply a raw message; compare what the readers
+	// of the parameter (Value() directly and through its output, ToMessage()) return
+	// with the mirrored value ("" = equal)
+	apply func(msg []byte) (bool, error)
+	diff  func(mp *mparam, alt bool) string
+}
+
+func recEq(a, b Rec) bool {
+	if a.A != b.A || a.B != b.B || a.D != b.D || len(a.C) != len(b.C) || len(a.M) != len(b.M) {
+		return false
+	}
+	for i := range a.C {
+		if a.C[i] != b.C[i] {
+			return false
+		}
+	}
+	for k, v := range a.M {
+		if w, ok := b.M[k]; !ok || w != v {
+			return false
+		}
+	}
+	return true
+}
+
+func vecsEq(a, b []vec3) bool {
+	if len(a) != len(b) {
+		return false
+	}
+	for i := range a {
+		if a[i] != b[i] {
+			return false
+		}
+	}
+	return true
+}
+
+// readersDiff compares the three readers of a parameter.Value[T] with the mirror.
+func readersDiff[T any](p *parameter.Value[T], alt bool, eq func(T) bool, show func(T) string, want string) string {
+	var v T
+	if alt {
+		v = p.Out().Value()
+	} else {
+		v = p.Value()
+	}
+	if !eq(v) {
+		return fmt.Sprintf("Value() = %s, the mirror holds %s", clip(show(v), 300), clip(want, 300))
+	}
+	msg := p.ToMessage()
+	var back T
+	if err := json.Unmarshal(msg, &back); err != nil {
+		return fmt.Sprintf("ToMessage() = %s does not decode: %v", clip(string(msg), 300), err)
+	}
+	if !eq(back) {
+		return fmt.Sprintf("ToMessage() = %s decodes to %s, the mirror holds %s", clip(string(msg), 300), clip(show(back), 300), clip(want, 300))
+	}
+	return ""
+}
+
+type srcFns struct {
+	s func(r *ref) nodes.NodeOutput[string]
+	i func(r *ref) nodes.NodeOutput[int]
+	v func(r *ref) nodes.NodeOutput[[]vector3.Float64]
+	c func(r *ref) nodes.NodeOutput[Rec]
 }
 
 func wrapS[G nodes.StructProcesor[string]](n *nodes.Struct[string, G], r *rec) *liveNode {
@@ -76,11 +143,6 @@ func mkI[G nodes.StructProcesor[int]](d G, useNew bool, r *rec) *liveNode {
 		return wrapI(nodes.NewStruct[G, int](d), r)
 	}
 	return wrapI(&nodes.Struct[int, G]{Data: d}, r)
-}
-
-type srcFns struct {
-	s func(r *ref) nodes.NodeOutput[string]
-	i func(r *ref) nodes.NodeOutput[int]
 }
 
 // buildNode creates the polyform node of model node mn. When literal is set the
@@ -142,6 +204,10 @@ func buildNode(mn *mnode, r *rec, literal, useNew bool, src srcFns) *liveNode {
 		return mkI(ChkI{In: src.i(nm(0)), R: r}, useNew, r)
 	case kChkS:
 		return mkS(ChkS{In: src.s(nm(0)), R: r}, useNew, r)
+	case kVFmt:
+		return mkS(VFmt{In: src.v(nm(0)), R: r}, useNew, r)
+	case kRFmt:
+		return mkS(RFmt{In: src.c(nm(0)), R: r}, useNew, r)
 	}
 	panic("unknown kind")
 }
@@ -149,9 +215,45 @@ func buildNode(mn *mnode, r *rec, literal, useNew bool, src srcFns) *liveNode {
 func buildParam(mp *mparam, pv bool, name string) *liveParam {
 	lp := &liveParam{t: mp.t, pv: pv}
 	switch {
+	case mp.t == tV:
+		def := make([]vector3.Float64, 0, len(mp.v))
+		for _, v := range mp.v {
+			def = append(def, vector3.New(v[0], v[1], v[2]))
+		}
+		p := &parameter.Vector3Array{Name: name, DefaultValue: def}
+		lp.node = p
+		lp.outV = func(alt bool) nodes.NodeOutput[[]vector3.Float64] {
+			if alt {
+				return p
+			}
+			return p.Out()
+		}
+		lp.apply = p.ApplyMessage
+		lp.diff = func(mp *mparam, alt bool) string {
+			return readersDiff(p, alt, func(v []vector3.Float64) bool { return vecsEq(toVec3s(v), mp.v) },
+				func(v []vector3.Float64) string { return fVFmt(0, true, toVec3s(v)) }, fVFmt(0, true, mp.v))
+		}
+	case mp.t == tR:
+		p := &parameter.Value[Rec]{Name: name, DefaultValue: mp.rc.clone()}
+		lp.node = p
+		lp.outR = func(alt bool) nodes.NodeOutput[Rec] {
+			if alt {
+				return p
+			}
+			return p.Out()
+		}
+		lp.apply = p.ApplyMessage
+		lp.diff = func(mp *mparam, alt bool) string {
+			return readersDiff(p, alt, func(v Rec) bool { return recEq(v, mp.rc) },
+				func(v Rec) string { return fRFmt(0, true, v) }, fRFmt(0, true, mp.rc))
+		}
 	case mp.t == tS && pv:
 		p := &parameter.Value[string]{Name: name, DefaultValue: mp.s}
 		lp.node = p
+		lp.apply = p.ApplyMessage
+		lp.diff = func(mp *mparam, alt bool) string {
+			return readersDiff(p, alt, func(v string) bool { return v == mp.s }, strconv.Quote, strconv.Quote(mp.s))
+		}
 		lp.outS = func(alt bool) nodes.NodeOutput[string] {
 			if alt {
 				return p
@@ -167,6 +269,10 @@ func buildParam(mp *mparam, pv bool, name string) *liveParam {
 	case mp.t == tI && pv:
 		p := &parameter.Value[int]{Name: name, DefaultValue: mp.i}
 		lp.node = p
+		lp.apply = p.ApplyMessage
+		lp.diff = func(mp *mparam, alt bool) string {
+			return readersDiff(p, alt, func(v int) bool { return v == mp.i }, strconv.Itoa, strconv.Itoa(mp.i))
+		}
 		lp.outI = func(alt bool) nodes.NodeOutput[int] {
 			if alt {
 				return p
